@@ -469,7 +469,17 @@ def getitem(t: SymTensor, index):
     # a one-element python list index [k] selects like the slice k:k+1 (keeps the dim)
     index = tuple(slice(i[0], i[0] + 1) if isinstance(i, list) and len(i) == 1 and isinstance(i[0], int) and i[0] >= 0 else i for i in index)
     if any(isinstance(i, list) for i in index):
-        raise Unsupported("list index")
+        # a python list of integers indexes like an integer tensor
+        conv = []
+        for i in index:
+            if isinstance(i, list):
+                if not all(isinstance(x, int) or is_z3(x) for x in i):
+                    raise Unsupported("list index with non-integer entries")
+                vals = [zint(x) for x in i]
+                conv.append(mk((len(vals),), "i", lambda I, vals=vals: vals[I[0]] if isinstance(I[0], int) else _select(vals, I[0])))
+            else:
+                conv.append(i)
+        index = tuple(conv)
     # advanced indexing?
     has_tensor = any(T(i) for i in index)
     if has_tensor:
@@ -551,6 +561,13 @@ def getitem(t: SymTensor, index):
         return AND(*conds), tuple(idx)
 
     return SymTensor(tuple(shape), t.dtype, base=t, fwd=fwd, inv=inv)
+
+
+def _select(vals, i):
+    r = vals[-1]
+    for k in range(len(vals) - 2, -1, -1):
+        r = z3.If(zint(i) == k, vals[k], r)
+    return r
 
 
 def simp_add(a, b):
